@@ -46,6 +46,7 @@ NVIRT = {"H2O": 2, "NH3": 3, "CH4": 4, "H2CO": 4, "HCN": 4, "C2H2": 5}
 TOLS = [1e-4, 1e-6, 1e-8]
 
 K_ENERGY = 10.0  # |w - w_dense| <= K_ENERGY * tol   (Bauer-Fike: <= |r|_2 <= sqrt(nov) * tol <= 5 tol)
+EIG_TOL = 1e-4  # eV; measured on the healthy tree <= 3e-7 at scf_eps 1e-10 (F from the returned density, C and e from the last diagonalisation)
 K_RESID = 1.001  # |A x - w x|_inf <= K_RESID * tol + 1e-11 (the package tests exactly this norm against tol)
 ORTHO_TOL = 1e-8
 SHELL_GAP = 1e-3  # eV: an orbital window whose edge falls inside a (near-)degenerate shell is ill-posed
@@ -349,6 +350,12 @@ def _check_solve(tr, step, mol, es, probe, prob):
             rec["harness"] = f"reference AO tensor does not reproduce the package Fock matrix ({ref['fock_err']:.2e})"
             recs.append(rec)
             continue
+        rec["eig_err"] = ref.get("eig_err", 0.0)
+        eig_tol = max(EIG_TOL, 10.0 * float(tr.get("scf_eps", 1e-10)))  # the residual follows the SCF threshold (0.14 x eps measured at 1e-3)
+        if ref.get("eig_err", 0.0) > eig_tol:
+            # the orbital energies the excited-state solver works with are not the eigenvalues that belong to its orbitals
+            prob.append(dict(cls="orbital_energies", member=lab, value=ref["eig_err"], tol=eig_tol,
+                             msg=f"{lab}: |F C - C diag(e)| = {ref['eig_err']:.2e} eV for the orbitals and orbital energies the solver used (> {eig_tol:g}): energies and orbitals are not paired"))  # fmt: skip
         A, B, wd = ref["A"], ref["B"], ref["wd"]
         no_b, nv_b = ref["no"], ref["nv"]
         if window is not None:
@@ -507,6 +514,15 @@ def run_trace(tr):
         out.append(rec)
         geoms = [geometry(nm, gi, seed) for nm, gi in step["mols"]]
         mode = step["mode"]
+        if mode in ("again_rot", "again_rot2"):
+            # the object is moved to a rigidly rotated copy (C3 about (1,1,1): x -> y -> z -> x) of the next geometry: the
+            # orbitals it tracks from the call before are matched through a 3-cycle of the p functions
+            Rb = np.array([[0.0, 0.0, 1.0], [1.0, 0.0, 0.0], [0.0, 1.0, 0.0]])
+            # (which rotations make the overlap matching a cycle of three or more orbitals depends on the molecule: two
+            #  different ones per molecule; measured with a scatter/gather slip: NH3 3.5 eV, H2O 2.7-4.8, CH4 0.2)
+            Rrot = M.generic_rot(seed) @ Rb if mode == "again_rot" else M.generic_rot(seed + 1)
+            geoms = [M.apply(g, Rrot) for g in geoms]
+            mode = "again"
         cis_amp = None
         kwargs = {}
         try:
@@ -713,6 +729,11 @@ def sequences(tier):
     for name in mols:
         for method in ("cis", "rpa"):
             for m2, m3 in (("again", "again_neg"), ("again_neg", "again"), ("again_neg", "again_neg")):
+                steps = [dict(mols=[(name, 0)], mode="fresh"), dict(mols=[(name, 1)], mode=m2), dict(mols=[(name, 2)], mode=m3)]
+                T.append(dict(kind="seq", method=method, tol=1e-6, n=3, best_guess=True, steps=steps))
+    for name in mols:
+        for method in ("cis", "rpa"):
+            for m2, m3 in (("again_rot", "again"), ("again", "again_rot2"), ("again_rot", "again_rot2"), ("again_rot2", "again_rot")):
                 steps = [dict(mols=[(name, 0)], mode="fresh"), dict(mols=[(name, 1)], mode=m2), dict(mols=[(name, 2)], mode=m3)]
                 T.append(dict(kind="seq", method=method, tol=1e-6, n=3, best_guess=True, steps=steps))
     # scripted initial guesses (fresh molecule, raw guess path), each followed by two reuse steps
